@@ -95,8 +95,10 @@ def make(cfg, rng, n):
     sim.configure_box(float(W), NR[0], NR[1], NR[2])
     sim.boundary = cfg["BType"]
     if cfg["UseTree"]:
-        sim.gravity = "tree"
-        sim.collision = "tree" if rng.random() < 0.5 else "none"
+        # the tree serves gravity, a collision search, or both (particles have radius 0: the searches never report anything)
+        variant = rng.choice(["g", "gc", "c", "lc"])
+        sim.gravity = "tree" if variant in ("g", "gc") else "none"
+        sim.collision = {"g": "none", "gc": "tree", "c": "tree", "lc": "linetree"}[variant]
         sim.collision_resolve = lambda s, c: 0
     else:
         sim.gravity = "none"
@@ -187,6 +189,14 @@ def main():
             for s in range(nsteps):
                 if tree and coincide(sim, cfg, 2):
                     break
+                if tree and s > 0 and rng.random() < 0.3:
+                    # continue with a restored copy: it must carry a complete tree like the original (re-attach the callback)
+                    if rng.random() < 0.5:
+                        sim = sim.copy()
+                    else:
+                        import pickle
+                        sim = pickle.loads(pickle.dumps(sim))
+                    sim.collision_resolve = lambda s_, c_: 0
                 if manual:
                     half_drift(sim)
                     ev.append({"a": "drift"})
